@@ -362,10 +362,21 @@ Qed.
 Definition fi_inv (t : T) (fi : fsinfo) (total : N) : Prop :=
   (match fi_free fi with Some n => n = count_spec t 2 (N.to_nat total) | None => True end) /\ hint_ok (fi_next fi).
 
+Lemma map_free_opt_free fi f : fi_free (map_free_opt fi f) = match fi_free fi with Some n => f n | None => None end.
+Proof. unfold map_free_opt. destruct (fi_free fi) eqn:E; cbn [fi_free]; [reflexivity|exact E]. Qed.
+Lemma map_free_opt_next fi f : fi_next (map_free_opt fi f) = fi_next fi.
+Proof. unfold map_free_opt. destruct (fi_free fi); reflexivity. Qed.
 Lemma map_free_free fi f : fi_free (map_free fi f) = option_map f (fi_free fi).
-Proof. unfold map_free. destruct (fi_free fi) eqn:E; cbn [fi_free option_map]; [reflexivity|exact E]. Qed.
+Proof. unfold map_free. rewrite map_free_opt_free. destruct (fi_free fi); reflexivity. Qed.
 Lemma map_free_next fi f : fi_next (map_free fi f) = fi_next fi.
-Proof. unfold map_free. destruct (fi_free fi); reflexivity. Qed.
+Proof. apply map_free_opt_next. Qed.
+(* while the sum stays a u32 the checked map is the plain one *)
+Lemma map_free_opt_add fi k : (forall n, fi_free fi = Some n -> n + k <= u32_max) ->
+  map_free_opt fi (fun n => checked_add32 n k) = map_free fi (fun n => n + k).
+Proof.
+  intros H. unfold map_free, map_free_opt, checked_add32. destruct (fi_free fi) as [n|]; [|reflexivity].
+  specialize (H n eq_refl). apply N.leb_le in H. rewrite H. reflexivity.
+Qed.
 
 (* allocation keeps the cached count exact, never underflows it, and leaves an in-range hint;
    it fails only with NotEnoughSpace and only when no data cluster is free *)
@@ -411,26 +422,15 @@ Proof.
         + rewrite Hfr by assumption. reflexivity.
       - destruct Hpost as (Hce & Hfr).
         destruct (N.eqb_spec x c) as [->|Hxc]; [rewrite Hce; reflexivity|]. rewrite Hfr by assumption. reflexivity. }
-    cbn [fi_free].
-    destruct (fi_free fi) as [n0|] eqn:Ef.
-    + destruct n0 as [|pn].
-      * (* cached count 0 but a free cluster was found: impossible under the invariant *)
-        exfalso. pose proof (cnt_pos (val t) c (N.to_nat total) 2 ltac:(lia) Hfree) as Hp.
-        unfold count_spec in Hcnt. lia.
-      * split; [exact Hi'|]. split; [|split; [exact Hc|split; [exact Hfree|]]].
-        -- split.
-           ++ rewrite map_free_free. cbn [fi_free option_map]. f_equal. lia.
-           ++ rewrite map_free_next. cbn [fi_next hint_ok].
-              destruct (c + 1 <? total + RESERVED_FAT_ENTRIES); unfold RESERVED_FAT_ENTRIES; lia.
-        -- rewrite map_free_next. cbn [fi_next]. eexists; split; [reflexivity|].
-           unfold RESERVED_FAT_ENTRIES. destruct (c + 1 <? total + 2) eqn:E; [apply N.ltb_lt in E|]; lia.
-    + split; [exact Hi'|]. split; [|split; [exact Hc|split; [exact Hfree|]]].
-      * split.
-        -- rewrite map_free_free. cbn [fi_free option_map]. exact I.
-        -- rewrite map_free_next. cbn [fi_next hint_ok].
-           destruct (c + 1 <? total + RESERVED_FAT_ENTRIES); unfold RESERVED_FAT_ENTRIES; lia.
-      * rewrite map_free_next. cbn [fi_next]. eexists; split; [reflexivity|].
-        unfold RESERVED_FAT_ENTRIES. destruct (c + 1 <? total + 2) eqn:E; [apply N.ltb_lt in E|]; lia.
+    split; [exact Hi'|]. split; [|split; [exact Hc|split; [exact Hfree|]]].
+    + split.
+      * (* a latched count is right, hence >= 1 here: it is decremented (a count of 0 would be forgotten) *)
+        rewrite map_free_opt_free. cbn [fi_free]. destruct (fi_free fi) as [n0|] eqn:Ef; [|exact I].
+        unfold checked_sub1. destruct (n0 =? 0) eqn:E0; [exact I|]. apply N.eqb_neq in E0. lia.
+      * rewrite map_free_opt_next. cbn [fi_next hint_ok].
+        destruct (c + 1 <? total + RESERVED_FAT_ENTRIES); unfold RESERVED_FAT_ENTRIES; lia.
+    + rewrite map_free_opt_next. cbn [fi_next]. eexists; split; [reflexivity|].
+      unfold RESERVED_FAT_ENTRIES. destruct (c + 1 <? total + 2) eqn:E; [apply N.ltb_lt in E|]; lia.
   - exact (alloc_err t prev (fi_next fi) total e Hinv Hh Hokc Hprev' Ea).
   - destruct (alloc_no_panic t prev (fi_next fi) total Hinv Hh Hokc Hprev') as [H _]. exact (H Ea).
   - destruct (alloc_no_panic t prev (fi_next fi) total Hinv Hh Hokc Hprev') as [_ H]. exact (H Ea).
@@ -454,8 +454,9 @@ Proof.
     - intros x Hxr Hx. apply Hfr; [exact Hx|]. apply Hokc. lia. }
   eexists _, _. split; [reflexivity|]. split; [exact Hi'|]. split; [|split; [exact Hgrow|split; assumption]].
   split.
-  - rewrite map_free_free. destruct (fi_free fi) as [n0|]; cbn [option_map]; [|exact I]. lia.
-  - rewrite map_free_next. exact Hh.
+  - rewrite map_free_opt_free. destruct (fi_free fi) as [n0|]; [|exact I].
+    unfold checked_add32. destruct (n0 + N.of_nat (length l) <=? u32_max); [lia|exact I].
+  - rewrite map_free_opt_next. exact Hh.
 Qed.
 
 (* truncating at a cluster: it becomes the end of the chain, everything after it is given back *)
@@ -487,9 +488,45 @@ Proof.
   eexists _, _. split; [reflexivity|]. split; [exact Hi'|].
   split; [|split; [exact Hce|split; [exact Hall|split; [exact Hfr|exact Hgrow]]]].
   split.
-  - rewrite map_free_free. destruct (fi_free fi) as [n0|]; cbn [option_map]; [|exact I]. lia.
-  - rewrite map_free_next. exact Hh.
+  - rewrite map_free_opt_free. destruct (fi_free fi) as [n0|]; [|exact I].
+    unfold checked_add32. destruct (n0 + N.of_nat (length l) <=? u32_max); [lia|exact I].
+  - rewrite map_free_opt_next. exact Hh.
 Qed.
+
+(* ANY latched count - no fi_inv: a volume whose FS-info sector was written by another implementation and is wrong -:
+   allocation never panics (the count is decremented with checked_sub, a count of 0 is FORGOTTEN), succeeds exactly when a data
+   cluster is free, and says what happens to the count *)
+Theorem fs_alloc_any_count t fi prev total :
+  inv t -> hint_ok (fi_next fi) ->
+  (forall x, 2 <= x < total + 2 -> okc x) ->
+  (match prev with Some p => okc p /\ (forall n, 2 <= n < total + 2 -> okv (Data n)) | None => True end) ->
+  match fs_alloc T get set t fi prev total with
+  | Ok (t', fi', c) => inv t' /\ 2 <= c < total + 2 /\ val t c = Free /\ hint_ok (fi_next fi') /\
+                       fi_free fi' = match fi_free fi with Some n => if n =? 0 then None else Some (n - 1) | None => None end
+  | Err e => e = ENotEnoughSpace /\ forall x, 2 <= x < total + 2 -> val t x <> Free
+  | Panic => False
+  | OutOfFuel => False
+  end.
+Proof.
+  intros Hinv Hh Hokc Hprev. unfold fs_alloc.
+  destruct (alloc_cluster T get set t prev (fi_next fi) total) as [[t' c]|e| |] eqn:Ea; cbn [bind].
+  - destruct (alloc_ok t prev (fi_next fi) total t' c Hinv Hh Hokc Hprev Ea) as (Hi' & Hc & Hfree & _).
+    split; [exact Hi'|]. split; [exact Hc|]. split; [exact Hfree|]. split.
+    + rewrite map_free_opt_next. cbn [fi_next hint_ok].
+      destruct (c + 1 <? total + RESERVED_FAT_ENTRIES); unfold RESERVED_FAT_ENTRIES; lia.
+    + rewrite map_free_opt_free. reflexivity.
+  - exact (alloc_err t prev (fi_next fi) total e Hinv Hh Hokc Hprev Ea).
+  - destruct (alloc_no_panic t prev (fi_next fi) total Hinv Hh Hokc Hprev) as [H _]. exact (H Ea).
+  - destruct (alloc_no_panic t prev (fi_next fi) total Hinv Hh Hokc Hprev) as [_ H]. exact (H Ea).
+Qed.
+
+(* once the count is forgotten (or was never known) the statistics call counts the table: exact whatever was stored before *)
+Theorem fs_stats_exact_unknown t fi total :
+  inv t -> fi_free fi = None -> (forall x, 2 <= x < total + 2 -> okc x) ->
+  fs_stats T get t fi total =
+    Ok ({| fi_free := Some (count_spec t 2 (N.to_nat total)); fi_next := fi_next fi; fi_dirty := true |},
+        count_spec t 2 (N.to_nat total)).
+Proof. intros Hinv E Hokc. unfold fs_stats. rewrite E, (count_free_spec t total Hinv Hokc). reflexivity. Qed.
 
 (* the statistics call reports exactly the number of free entries of the table, whatever path it takes *)
 Theorem fs_stats_exact t fi total :
